@@ -314,6 +314,32 @@ impl World {
         }
     }
 
+    /// C16: no node knows a member of a cluster with a different id; live/dead sets likewise.
+    pub fn check_isolation(&self, out: &mut StepOut) {
+        for i in 0..self.cfg.n {
+            let mine = &self.cfg.cluster_ids[i];
+            let foreign = |id: &Id| -> bool {
+                // node ids are n<j>: find the cluster of the node that owns the id
+                self.ledgers.keys().any(|k| k == id) && {
+                    let j: usize = id.node_id[1..].parse().unwrap_or(0);
+                    &self.cfg.cluster_ids[j] != mine
+                }
+            };
+            for rid in self.nodes[i].cc.node_states().keys() {
+                let id = real::from_real_id(rid);
+                if foreign(&id) {
+                    out.viol("C16", format!("node {i} (cluster {mine:?}) knows member {} of another cluster", id.node_id), "foreign-member-leaked".into());
+                }
+            }
+            for rid in self.nodes[i].cc.live_nodes().chain(self.nodes[i].cc.dead_nodes()) {
+                let id = real::from_real_id(rid);
+                if foreign(&id) {
+                    out.viol("C16", format!("node {i} tracks liveness of member {} of another cluster", id.node_id), "foreign-member-leaked".into());
+                }
+            }
+        }
+    }
+
     /// C04 monotonicity of node `i` between two snapshots. `gc_action`: the step was a local GC
     /// pass (entries may disappear, the watermark may rise).
     fn check_monotone(&self, i: usize, before: &NodeCopies, after: &NodeCopies, gc_action: bool, out: &mut StepOut) {
@@ -533,6 +559,35 @@ impl World {
             }
         }
 
+        if check && self.cfg.has("C16") {
+            out.tally.inc("c16_deliveries_checked");
+            let foreign_syn = matches!(&*m.meaning, Meaning::Syn { cluster_id, .. } if cluster_id != &self.cfg.cluster_ids[to]);
+            if foreign_syn {
+                out.tally.inc("c16_foreign_syns");
+                let reply_is_badcluster = reply.as_ref().map(|r| real::meaning_of_real(r) == Meaning::BadCluster).unwrap_or(false);
+                if !reply_is_badcluster {
+                    out.viol("C16", format!("node {to} answered a SYN of cluster {:?} with {:?}", m.meaning.kind(), reply.as_ref().map(|r| real::meaning_of_real(r).kind())), "foreign-syn-not-rejected".into());
+                }
+                let mut b2 = before.clone();
+                if let Some(c) = b2.get_mut(&own) {
+                    c.heartbeat += 1;
+                }
+                if b2 != after {
+                    out.viol("C16", format!("node {to}: state changed while rejecting a foreign SYN"), "foreign-syn-changed-state".into());
+                }
+            }
+            if matches!(&*m.meaning, Meaning::BadCluster) {
+                out.tally.inc("c16_badcluster_processed");
+                let mut b2 = before.clone();
+                if let Some(c) = b2.get_mut(&own) {
+                    c.heartbeat += 1;
+                }
+                if b2 != after || reply.is_some() {
+                    out.viol("C16", format!("node {to}: a BadCluster reply changed state or was answered"), "badcluster-changed-state".into());
+                }
+            }
+            self.check_isolation(out);
+        }
         if check {
             // C05: own namespace untouched, heartbeat + 1
             if self.cfg.has("C05") {
